@@ -23,6 +23,31 @@ open Pearl
 /-- info: true -/
 #guard_msgs in #eval (genData 300000 12345).length == 300000 && (genData 300000 12345).getLast? == some 8
 
+-- seeds 240..249, len ≥ 8: plain stream of length len-4, then the 4 bytes forcing CRC-32C = 0
+-- (values printed by the Rust functions `gen_data` / `crc_force`, unit tests in the harness' util.rs)
+/-- info: true -/
+#guard_msgs in #eval genData 8 240 == [240, 82, 190, 29, 16, 189, 72, 12]
+/-- info: true -/
+#guard_msgs in #eval crcForce [] == [171, 155, 224, 155] && crcForce [1, 2, 3] == [181, 105, 208, 106]
+/-- info: true -/
+#guard_msgs in #eval (genData 1004 241).drop 1000 == [72, 14, 89, 150] && crc32c (genData 1004 241) == 0
+/-- info: true -/
+#guard_msgs in #eval (genData 300000 249).drop 299996 == [152, 32, 88, 212] && crc32c (genData 300000 249) == 0
+/-- info: true -/
+#guard_msgs in #eval (genData 1004 241).take 1000 == genDataPlain 1000 241
+/-- info: true -/
+#guard_msgs in #eval (List.range 10).all fun i => [8, 9, 11, 64, 1004].all fun len =>
+  (genDataBA len (240 + i)).data.toList == genData len (240 + i) && crc32c (genData len (240 + i)) == 0
+    && (genData len (240 + i)).length == len
+/-- info: true -/
+#guard_msgs in #eval (genDataBA 300000 249).data.toList == genData 300000 249
+/-- info: true -/
+#guard_msgs in #eval (List.range 8).all fun len => (List.range 10).all fun i =>
+  genData len (240 + i) == genDataPlain len (240 + i) && (genDataBA len (240 + i)).data.toList == genData len (240 + i)
+/-- info: true -/
+#guard_msgs in #eval [0, 1, 7, 99, 239, 250, 251, 300, 12345].all fun seed => [0, 1, 7, 8, 100].all fun len =>
+  genData len seed == genDataPlain len seed && (genDataBA len seed).data.toList == genData len seed
+
 /-- info: true -/
 #guard_msgs in #eval le64 0x0102030405060708 == [8,7,6,5,4,3,2,1]
 /-- info: true -/
